@@ -118,6 +118,10 @@ func mkHist(name, idX, idY string, j int64) hist {
 		return hist{Name: name, ID: idX, RdbLeft: 45000 + j, RdbSize: 16000, LogLeft: 45000 + j, LogRight: 57000 + j}
 	case "O": // another id, reaching beyond every X state
 		return hist{Name: name, ID: idY, RdbLeft: 500 + j, RdbSize: 9000, LogLeft: 500 + j, LogRight: 70000 + j}
+	case "R": // leader only: the source's run id adopted, cache voided, new log writer got no byte
+		return hist{Name: name, ID: idX, RdbLeft: -1, LogLeft: -1, LogRight: -1, IDOnly: true, Voided: 5000 + j}
+	case "R0": // leader only: run id adopted, no writer yet
+		return hist{Name: name, ID: idX, RdbLeft: -1, LogLeft: -1, LogRight: -1, IDOnly: true}
 	case "S": // short history of X (for the 10 MiB threshold cases)
 		return hist{Name: name, ID: idX, RdbLeft: 1000 + j, RdbSize: 20000, LogLeft: 1000 + j, LogRight: 3000 + j}
 	case "BA": // the same history, more than 10 MiB (the follower's gap threshold) further than S: by one byte
@@ -189,7 +193,7 @@ func buildCases(r *harness.Run) []*caseSpec {
 		switch {
 		case strings.HasPrefix(c.L, "B") || strings.HasPrefix(c.F, "B"):
 			c.weight = 5
-		case c.L == "E":
+		case c.L == "E" || c.L == "R" || c.L == "R0":
 			c.weight = 3
 		case c.Scn == scSwitchRdb || c.Scn == scCutRetry || c.Scn == scSwitch2 || c.Scn == scSwitchLate || c.Scn == scBounce:
 			c.weight = 2
@@ -215,6 +219,22 @@ func buildCases(r *harness.Run) []*caseSpec {
 		for _, f := range []string{"E", "P", "Q", "C", "O"} {
 			for _, cb := range combos {
 				add(caseSpec{L: "G", F: f, BL: cb[0], BF: cb[1], Proc: "same", Scn: scPlain, Variant: v})
+			}
+		}
+		// A+. a leader that carries the source's run id but has not cached a byte yet: every
+		// follower holding data of that id is ahead of it
+		for _, cb := range combos {
+			for _, f := range []string{"C", "P", "Q", "E", "O"} {
+				add(caseSpec{L: "R", F: f, BL: cb[0], BF: cb[1], Proc: "same", Scn: scPlain, Variant: v})
+				if cb[1] == backendDisk && (f == "C" || f == "P" || f == "Q") {
+					add(caseSpec{L: "R", F: f, BL: cb[0], BF: cb[1], Proc: "fresh", Scn: scPlain, Variant: v})
+				}
+			}
+			for _, f := range []string{"C", "Q"} {
+				add(caseSpec{L: "R0", F: f, BL: cb[0], BF: cb[1], Proc: "same", Scn: scPlain, Variant: v})
+			}
+			if v < r.N(1, 2) && (cb[0] == cb[1] || !r.Quick()) {
+				add(caseSpec{L: "R", F: "BA", BL: cb[0], BF: cb[1], Proc: "same", Scn: scPlain, Variant: v})
 			}
 		}
 		// A''. the 10 MiB gap threshold, crossed in both directions, follower ahead and behind
@@ -431,7 +451,8 @@ func (cr *caseRun) sampler() {
 		}
 		first = false
 		last = fs
-		if cr.beyond == nil && fs.ID != "" && fs.ID == lid && fs.Right > fed {
+		// (an empty range [x,x] without snapshot bytes claims no byte)
+		if cr.beyond == nil && fs.ID != "" && fs.ID == lid && fs.Right > fed && (fs.Right > fs.Left || fs.RdbSize > 0) {
 			// not the follower's own earlier data of the same id (the ahead case)
 			if !(fs.ID == cr.pre.ID && fs.Right <= cr.pre.Right) {
 				cr.beyond = map[string]any{"follower": fs, "leader_fed_up_to": fed}
@@ -508,13 +529,18 @@ func (cr *caseRun) converged() bool {
 	if cr.fch.RunId() != lid {
 		return false
 	}
+	lr := cr.lf.curRight()
+	if lr < 0 {
+		return false // the leader holds nothing: there is nothing to catch up with
+	}
 	_, fr := cr.fch.GetOffsetRange(lid)
-	return fr == cr.lf.curRight()
+	return fr == lr
 }
 
 const (
 	maxHandshakes  = 4
 	livelockRounds = 6
+	refusedRounds  = 3
 )
 
 // waitEvent blocks until a logical event: the follower caught up, Run returned, the armed cut
@@ -546,9 +572,14 @@ func (cr *caseRun) waitEvent(h *follHandle, wantCut bool) string {
 		}
 		// the same request answered the same way livelockRounds times in a row, with a leader that
 		// did not change in between: the follower makes no progress and never will
-		if n, what := cr.ln.identicalRounds(rpc0); n >= livelockRounds {
+		if n, what := cr.ln.identicalRounds(rpc0, false); n >= livelockRounds {
 			cr.livelock = what
 			return "livelock"
+		}
+		// the leader has nothing to serve and says so (CLEAR) round after round: no verdict about
+		// progress; stop waiting and judge what the follower holds
+		if n, _ := cr.ln.identicalRounds(rpc0, true); n >= refusedRounds {
+			return "refused"
 		}
 		// the open transfer has carried everything the leader holds, yet the follower's declared
 		// range does not say so, and the follower starts no new session either (its retry sleep is
@@ -825,7 +856,12 @@ func runCase(r *harness.Run, c *caseSpec, dir string) {
 				return false
 			})
 		}
-		for bi, b := range c.Bursts {
+		bursts := c.Bursts
+		if c.LH.IDOnly {
+			bursts = nil // no source connection, no log writer: the leader cannot grow
+			ev = cr.waitEvent(h, false)
+		}
+		for bi, b := range bursts {
 			if hookErr != nil {
 				break
 			}
@@ -903,6 +939,8 @@ func runCase(r *harness.Run, c *caseSpec, dir string) {
 		outcome = "takeover"
 	case ev == "returned":
 		outcome = "returned-other"
+	case ev == "refused":
+		outcome = "leader-has-nothing"
 	case ev == "livelock":
 		outcome = "sync-livelock"
 	case ev == "noconv":
@@ -983,6 +1021,7 @@ func runCase(r *harness.Run, c *caseSpec, dir string) {
 	r.Count("snapshot_declared_but_refused", int64(cr.st.refusedSnapshot))
 	r.Count("spot_reads", int64(cr.st.spotReads))
 	r.Count("reader_stalls_resumed", int64(cr.st.resumedReads))
+	r.Count("empty_snapshot_declared", int64(cr.st.emptySnapshots))
 	r.Count("intermediate_states_read_back", int64(cr.st.midChecks))
 	r.Count("intermediate_reads_dropped_state_moved", int64(cr.st.transientDropped))
 	r.Count("rpcs", int64(len(rpcs)))
